@@ -128,6 +128,34 @@ for name, (src, entry, ok) in CASES.items():
         print(f"rejected  {name:28s} {e.reason[:90]}" if not ok else f"NOT ACCEPTED {name}: {e}")
         bad += 1 if ok else 0
 
+# ---- 2026-10-02 additions: the relaxed fragment checks (a temp re-bound by a later loop; jumps of loops inside the fragment;
+#      after="Type:k").  Each case: (source, function entry, must be accepted?)
+_FR = ("def f(xs):\n    acc = 0\n    for a in xs:\n        if a == 3:\n            continue\n        acc += a\n    out = 0\n"
+       "    for a in xs:\n        out += a\n    return acc + out\n")
+_FR_LEAK = _FR.replace("    out = 0\n", "    out = a\n")                       # the temp is read behind the fragment, outside any loop that re-binds it
+_FR_ITER = _FR.replace("    for a in xs:\n        out += a\n", "    for a in [a]:\n        out += a\n")   # ... in the ITERABLE of the re-binding loop
+_FR_OUTER = ("def f(xs):\n    acc = 0\n    for b in xs:\n        acc += b\n        if b == 3:\n            continue\n        acc += 1\n    return acc\n")
+_FRP = dict(params=[("xs", "xs", List(Z))], returns=Z)
+FRCASES = {
+    "frag-temp-rebound-by-later-loop": (_FR, dict(fragment=dict(path=[], count=2, outputs=["acc"], temps=["a"]), **_FRP), True),
+    "frag-temp-read-after-fragment": (_FR_LEAK, dict(fragment=dict(path=[], count=2, outputs=["acc"], temps=["a"]), **_FRP), False),
+    "frag-temp-read-in-rebinding-iterable": (_FR_ITER, dict(fragment=dict(path=[], count=2, outputs=["acc"], temps=["a"]), **_FRP), False),
+    "frag-continue-of-enclosing-loop-ends-it": (_FR_OUTER, dict(fragment=dict(path=["For"], count=3, outputs=["acc"]), params=[("acc", "acc", Z), ("b", "b", Z)], returns=Z), False),
+    "frag-after-type-index": (_FR, dict(fragment=dict(path=[], after="For:0", count=2, outputs=["out"], temps=["a"]), **_FRP), True),
+    "frag-after-type-index-missing": (_FR, dict(fragment=dict(path=[], after="For:2", count=1, outputs=["out"], temps=["a"]), **_FRP), False),
+}
+for name, (src, entry, ok) in FRCASES.items():
+    d = WORK / ("fr_" + name)
+    d.mkdir(parents=True, exist_ok=True)
+    (d / "m.py").write_text(src)
+    try:
+        g = tr.translate_spec(dict(id="T", source="m.py", module="TGen", link="-", functions=[dict(py="f", gen="f", **entry)]), d)
+        print(f"accepted  {name}" if ok else f"NOT REJECTED {name}:\n{g.text}")
+        bad += 0 if ok else 1
+    except tr.Untranslatable as e:
+        print(f"rejected  {name:28s} {e.reason[:90]}" if not ok else f"NOT ACCEPTED {name}: {e}")
+        bad += 1 if ok else 0
+
 # ---- C04 additions: f-strings with int pieces (spec 'fstring_int'), in-place mutation handed back (spec 'mutating_calls',
 #      function entry 'returns_param'), optional parameter of a mapped callee.  Each case: (source, spec extras, entry extras, accepted?)
 _BOX = tr.Nom("Box", "box")
